@@ -4,7 +4,8 @@ import Hertz.Gen.Consts
 Model of the handler-chain machinery.
 
 * `pkg/app/context.go`: `RequestContext.Next`, `Abort`, `AbortWithStatus`, `IsAborted`, the `index int8`
-  field (exact two's-complement wrap-around, `int8(len(handlers))` truncation, checked slice indexing).
+  field (exact `int8`: the increments of `Next` saturate at `MaxInt8`, `int8(len(handlers))` truncates, slice
+  indexing is checked).
 * `pkg/route/routergroup.go`: `Use`, `Group`, `handle`, `combineHandlers` (with the size bound).
 * `pkg/route/engine.go`: `Engine.Use`, `NoRoute`, `NoMethod`, `rebuild404Handlers`, `rebuild405Handlers`,
   `addRoute`'s assertions, and the chain selection of `ServeHTTP` (matched / 405 / 404 / missing Host).
@@ -44,8 +45,8 @@ deriving instance DecidableEq for Except
 /-- `AbortIndex` as regenerated from `pkg/route/consts/const.go` -/
 def abortIndex : Int := Hertz.Gen.abortIndex
 
-/-- `ctx.index++` on an `int8` -/
-def inc8 (i : Int) : Int := if i = 127 then -128 else i + 1
+/-- `if ctx.index < math.MaxInt8 { ctx.index++ }` on an `int8` (the increment saturates at 127) -/
+def inc8 (i : Int) : Int := if i < 127 then i + 1 else i
 
 /-- `int8(len(ctx.handlers))` -/
 def trunc8 (n : Nat) : Int := ((n : Int) + 128) % 256 - 128
@@ -83,7 +84,7 @@ def nextLoop : Nat → List Script → Int → R
             emit (.exit i.toNat j) (nextLoop f hs (inc8 j)))
     else ([], .ok i)
 
-/-- `ctx.Next(c)` with `ctx.index = i` -/
+/-- `ctx.Next(c)` with `ctx.index = i` (both increments of `Next` are the saturating `inc8`) -/
 def next (fuel : Nat) (hs : List Script) (i : Int) : R := nextLoop fuel hs (inc8 i)
 
 /-- Fuel that provably suffices for every chain no longer than `AbortIndex`. -/
@@ -92,22 +93,10 @@ def fuelFor (hs : List Script) : Nat := if hs.length ≤ 63 then hs.length + 2 e
 /-- A fresh context (`index = -1`) running the chain: `ctx.SetHandlers(hs); ctx.Next(c)`. -/
 def run (hs : List Script) : R := next (fuelFor hs) hs (-1)
 
-/-- The decidable side condition of `onion`: the `int8` index never wraps, i.e. the run does not end in
-the out-of-range panic that follows a wrap immediately. -/
-def noWrap (hs : List Script) : Bool :=
-  match (run hs).2 with
-  | .error (.panic _) => false
-  | _ => true
-
 def nexts : Script → Nat
   | [] => 0
   | .next :: t => nexts t + 1
   | _ :: t => nexts t
-
-/-- number of index increments a chain can cause: one per handler plus one per `Next` call -/
-def work : List Script → Nat
-  | [] => 0
-  | sc :: t => 1 + nexts sc + work t
 
 /-! ### registration -/
 
